@@ -478,8 +478,12 @@ func c09(ctx *core.Ctx) {
 				}
 			}
 			// actual requests from the allowed origin
-			for _, m := range []string{"GET", "POST", "OPTIONS"} {
+			for mi, m := range []string{"GET", "POST", "OPTIONS", "GET", "POST", "PUT"} {
 				req := corsReq(m, u, origin, "", "")
+				if mi >= 3 {
+					// only OPTIONS requests are preflights, whatever headers another method carries
+					req = corsReq(m, u, origin, rr.Pick([]string{"GET", "POST", "PUT"}), rr.Pick([]string{"", "Content-Type"}))
+				}
 				out := rt.Run(p.with, rt.Dispatch, &req)
 				tw := rt.Run(p.twin, rt.Dispatch, &req)
 				ctx.Eval(2)
